@@ -122,8 +122,19 @@ def strip_text(x):
     return x
 
 
+# Set to True to treat an uncertainty that comes back as numeric TEXT ('0.5' for 0.5) as preserved.
+# The statement says "same attributes" and lists only whitespace trimming as a loss of the XML form, so
+# the default is to report it (class property.uncertainty:number->text).
+UNCERTAINTY_NUMERIC_TEXT_IS_SAME = False
+
+
 def _num(u):
     """Uncertainty is a number: 2 and 2.0 describe the same attribute (XML has no int/float distinction)."""
+    if UNCERTAINTY_NUMERIC_TEXT_IS_SAME and isinstance(u, str):
+        try:
+            return ('num', float(u))
+        except ValueError:
+            return u
     if isinstance(u, tuple) and len(u) == 2 and u[0] == 'float':
         return ('num', float(u[1]))
     if isinstance(u, int) and not isinstance(u, bool):
@@ -210,35 +221,57 @@ def field_class(kind, field, img, other=None):
     return 'attribute-preserved', '%s.%s:%s' % (kind, field.lstrip('_'), text_feature(raw.get(field)))
 
 
-def compare(a, b, path=''):
-    """Differences between ORIGINAL image a and LOADED image b: list of dicts clause/feature/object/detail."""
+def compare(a, b, path='', lab=None):
+    """Differences between ORIGINAL image a and LOADED image b: list of dicts clause/feature/object/detail.
+    lab: image (same tree shape as a) whose content is used for the feature labels instead of a's."""
     out = []
+    if lab is None or lab['kind'] != a['kind']:
+        lab = a
     name = a['fields'].get('_name')
     here = path + '/' + str(name) if a['kind'] != 'document' else ''
     if a['kind'] != b['kind']:
         return [{'clause': 'tree-preserved', 'feature': 'kind', 'object': here,
                  'detail': '%s vs %s' % (a['kind'], b['kind'])}]
-    for f in sorted(set(a['fields']) | set(b['fields'])):
+    differing = [f for f in sorted(set(a['fields']) | set(b['fields']))
+                 if a['fields'].get(f, '<missing>') != b['fields'].get(f, '<missing>')]
+    if a['kind'] != 'document' and '_id' in differing and '_name' in differing:
+        # neither id nor name survived: the object was replaced by a placeholder, report it once
+        out.append({'clause': 'object-preserved', 'feature': object_feature(lab), 'object': here, 'field': None,
+                    'detail': 'original %s %r came back as an unrelated object (name %r)'
+                              % (a['kind'], name, b['fields'].get('_name'))})
+        return out
+    for f in differing:
         va, vb = a['fields'].get(f, '<missing>'), b['fields'].get(f, '<missing>')
-        if va != vb:
-            clause, feature = field_class(a['kind'], f, a, b)
-            out.append({'clause': clause, 'feature': feature, 'object': here or '/', 'field': f,
-                        'detail': 'original %r, loaded %r' % (va, vb)})
+        clause, feature = field_class(a['kind'], f, lab, b)
+        out.append({'clause': clause, 'feature': feature, 'object': here or '/', 'field': f,
+                    'detail': 'original %r, loaded %r' % (va, vb)})
     for key in ('props', 'sections'):
         ca, cb = a[key], b[key]
+        cl = lab[key] if len(lab[key]) == len(ca) else ca
         if len(ca) != len(cb):
-            out.append({'clause': 'tree-preserved', 'feature': '%s-count' % key, 'object': here or '/',
-                        'detail': 'original has %d %s, loaded %d' % (len(ca), key, len(cb))})
+            have = set(c['fields'].get('_id') for c in cb)
+            missing = [z for x, z in zip(ca, cl) if x['fields'].get('_id') not in have]
+            feats = sorted(set(object_feature(z) for z in missing)) or ['%s-count' % key]
+            for ft in feats:
+                out.append({'clause': 'tree-preserved', 'feature': 'missing-' + ft if missing else ft,
+                            'object': here or '/', 'field': None,
+                            'detail': 'original has %d %s, loaded %d' % (len(ca), key, len(cb))})
             continue
-        for x, y in zip(ca, cb):
-            out += compare(x, y, here)
+        for x, y, z in zip(ca, cb, cl):
+            out += compare(x, y, here, z)
     return out
 
 
-def doc_differences(orig, loaded, strip):
+def object_feature(img):
+    if img['kind'] == 'property':
+        return 'property:' + field_class('property', 'values', img)[1]
+    return img['kind']
+
+
+def doc_differences(orig, loaded, strip, label_from=None):
     """All classified differences; guarded by whole-image equality so nothing is missed."""
     a, b = image(orig, strip), image(loaded, strip)
-    diffs = compare(a, b)
+    diffs = compare(a, b, lab=None if label_from is None else image(label_from, strip))
     if not diffs and frozen(a) != frozen(b):
         diffs.append({'clause': 'snapshot-equal', 'feature': 'unclassified', 'object': '/',
                       'detail': str(h.diff(frozen(a), frozen(b)))[:300]})
@@ -292,6 +325,18 @@ def doc_edge_strings():
     return doc
 
 
+def doc_tuple_comma(several):
+    """n-tuple whose element holds a comma / quote (own documents: the reader may refuse the whole file)."""
+    with h.quiet():
+        doc = odml.Document()
+        sec = odml.Section(name='tup', type='t', parent=doc)
+        vals = ['(a,b;c)', '(d;e)'] if several else ['(a,b;c)']
+        odml.Property(name='tc', dtype='2-tuple', values=vals, parent=sec)
+        odml.Property(name='tq', dtype='2-tuple', values=['(a"b;c)', '(q;"r")'] if several else ['("x";y)'],
+                      parent=sec)
+    return doc
+
+
 def doc_attrs():
     """Every optional attribute (that needs no network) set, with awkward text."""
     texts = ['plain', 'Def,with "chars" <&>', 'two\nlines', 'µ-é', '[x]', "it's; (a)"]
@@ -329,12 +374,15 @@ def doc_retypable():
 
 def documents(tier, seed, extra=()):
     """(label, doc) for the generated documents plus the fixed ones."""
-    for i, d in enumerate(h.gen_docs(tier, seed)):
-        yield 'gen_docs(%s,%d)[%d]' % (tier, seed, i), d
+    for sd in ([seed] if tier == 'quick' else [seed, seed + 1000, seed + 2000]):
+        for i, d in enumerate(h.gen_docs(tier, sd)):
+            yield 'gen_docs(%s,%d)[%d]' % (tier, sd, i), d
     yield 'dtypes', doc_dtypes()
     yield 'cards', doc_cards()
     yield 'edge_strings', doc_edge_strings()
     yield 'attrs', doc_attrs()
+    yield 'tuple_comma_single', doc_tuple_comma(False)
+    yield 'tuple_comma_several', doc_tuple_comma(True)
     for label, fn in extra:
         yield label, fn()
 
@@ -392,17 +440,30 @@ def drop_workdir(path):
         pass
 
 
-def generalise(pairs, all_pairs):
+def xml_reader_mode(reader):
+    """strict readers raise on a problem, lenient ones (ignore_errors=True) go on with a warning."""
+    if reader in ('odml.load', 'ODMLReader.from_file') or '(lenient)' in reader:
+        return 'lenient'
+    return 'strict'
+
+
+def generalise(pairs, all_pairs, mode=lambda pair: xml_reader_mode(pair[1])):
     """Turn a set of failing (writer, reader) pairs into labels, using 'any' where the failure does not
-    depend on the entry point."""
+    depend on the entry point, and 'strict' / 'lenient' where it only depends on the reader mode."""
     pairs = set(pairs)
-    if pairs == set(all_pairs):
+    all_pairs = set(all_pairs)
+    if pairs == all_pairs:
         return [('any', 'any')]
     out = []
     rest = set(pairs)
+    for m in ('strict', 'lenient'):
+        ms = set(p for p in all_pairs if mode(p) == m)
+        if ms and ms <= pairs:
+            out.append(('any', m))
+            rest -= ms
     for w in sorted(set(p[0] for p in all_pairs)):
         rs = set(p for p in all_pairs if p[0] == w)
-        if rs and rs <= pairs:
+        if rs and rs <= pairs and rs & rest:
             out.append((w, 'any'))
             rest -= rs
     for r in sorted(set(p[1] for p in all_pairs)):
@@ -412,6 +473,14 @@ def generalise(pairs, all_pairs):
             rest -= ws
     out += sorted(rest)
     return out
+
+
+def exc_feature(exc):
+    """Stable label of an exception: type and the constant head of its message."""
+    import re
+    head = re.split(r'[({\[\n]', str(exc))[0]
+    head = re.sub(r'[0-9]+', 'N', head).strip()[:70]
+    return '%s:%s' % (type(exc).__name__, head)
 
 
 # ---------------------------------------------------------------------------------------------
@@ -622,7 +691,7 @@ def run_roundtrip(tier, seed):
     writer_raised = 0
     try:
         for label, doc in documents(tier, seed):
-            sig = hash(doc_signature(doc))
+            sig = doc_signature(doc)
             before = h.snap(doc, parent=False)
             found = {}       # (check, clause, feature, object, field) -> {'pairs': set, 'detail':..}
             all_pairs = []
@@ -644,7 +713,7 @@ def run_roundtrip(tier, seed):
                         found.setdefault(key, {'pairs': set(), 'detail': detail})['pairs'].add((wname, rname))
 
                     if k == 'exc':
-                        note('reader-accepts', 'reader-accepts', type(loaded).__name__, '/', None,
+                        note('reader-accepts', 'reader-accepts', exc_feature(loaded), '/', None,
                              'reader raised %s: %s' % (type(loaded).__name__, str(loaded)[:200]))
                         continue
                     if not isinstance(loaded, h.BaseDocument):
@@ -741,7 +810,7 @@ def run_vocabulary(tier, seed):
             agg.add(check='C01.xml_vocabulary/format-tables', cls={'clause': 'format-tables', 'feature': feature},
                     witness={'table': feature}, detail=str(detail))
         for label, doc in documents(tier, seed):
-            sig = hash(doc_signature(doc))
+            sig = doc_signature(doc)
             n_secs, n_props = map(len, h.walk(doc))
             for wname, _produces, styled in WRITERS:
                 col.case(cls_key=(sig, wname), sample='%s | %s' % (label, wname))
@@ -792,7 +861,7 @@ def value_text(p):
         return None
     dtype = p._dtype or 'string'
     if dtype.endswith('-tuple'):
-        return '[' + ','.join('(' + ';'.join(t) + ')' for t in vals) + ']'
+        return '[' + ','.join(csv_field('(' + ';'.join(t) + ')') for t in vals) + ']'
     items = []
     for v in vals:
         if isinstance(v, dt.datetime):
@@ -877,7 +946,7 @@ def run_foreign_writer(tier, seed):
     path = os.path.join(work, 'doc.xml')
     try:
         for label, doc in documents(tier, seed):
-            sig = hash(doc_signature(doc))
+            sig = doc_signature(doc)
             text = foreign_xml(doc)
             with open(path, 'w', encoding='utf-8') as f:
                 f.write(XML_DECL + text)
@@ -897,7 +966,7 @@ def run_foreign_writer(tier, seed):
                         .add(('foreign', rname))
 
                 if k == 'exc':
-                    note('reader-accepts', type(loaded).__name__, '/', None,
+                    note('reader-accepts', exc_feature(loaded), '/', None,
                          'reader raised %s: %s' % (type(loaded).__name__, str(loaded)[:200]))
                     continue
                 if not isinstance(loaded, h.BaseDocument):
